@@ -20,6 +20,7 @@ def raOf : List String → Option RA
 
 def respOf : List String → Option (Resp × String)
   | ["neterr"] => some (.otherErr, "-")
+  | ["neterr-dl"] => some (.otherErr, "-")
   | ["junk"] => some (.otherErr, "-")
   | ["ok"] => some (.http 200 .none, "200")
   | ["redir", c] =>
